@@ -7,6 +7,7 @@ import (
 	"strings"
 
 	ethcrypto "github.com/ethereum/go-ethereum/crypto"
+	"github.com/rigochain/rigo-go/ctrlers/stake"
 	ctrlertypes "github.com/rigochain/rigo-go/ctrlers/types"
 	rtypes "github.com/rigochain/rigo-go/types"
 	abcitypes "github.com/tendermint/tendermint/abci/types"
@@ -155,6 +156,14 @@ func (c *Chain) Build(s TxSpec, env Env) *ctrlertypes.Trx {
 		if bal == nil {
 			bal = big.NewInt(0)
 		}
+		if s.ReqAmt == "rwd" || s.ReqAmt == "rwd+1" { // everything withdrawable as of the last commit (+1)
+			amt := c.CommittedReward(s.From)
+			if s.ReqAmt == "rwd+1" {
+				amt.Add(amt, big.NewInt(1))
+			}
+			payload = &ctrlertypes.TrxPayloadWithdraw{ReqAmt: U256(amt)}
+			break
+		}
 		payload = &ctrlertypes.TrxPayloadWithdraw{ReqAmt: U256(ParseAmount(s.ReqAmt, bal, big.NewInt(0)))}
 	case "proposal":
 		typ = ctrlertypes.TRX_PROPOSAL
@@ -269,6 +278,19 @@ func (c *Chain) ActiveMinGas() uint64 {
 func (c *Chain) CommittedBalance(name string) *big.Int {
 	a, _, _, _ := c.App.VerifCtrlers()
 	return a.ReadAccount(W(name).Addr).GetBalance().ToBig()
+}
+
+// CommittedReward reads the sender's withdrawable reward as of the last commit (immutable tree, read-only).
+func (c *Chain) CommittedReward(name string) *big.Int {
+	_, st, _, _ := c.App.VerifCtrlers()
+	out := big.NewInt(0)
+	want := hx(W(name).Addr)
+	_ = st.VerifReadRewardsAt(c.Height, func(r *stake.Reward) {
+		if hx(r.Address()) == want {
+			out = r.GetCumulated().ToBig()
+		}
+	})
+	return out
 }
 
 // EnvFor builds the default resolution environment for a template. bal (may be nil) overrides the
